@@ -9,6 +9,7 @@ import z3
 
 OBL_TIMEOUT_MS = int(os.environ.get("PYVC_OBL_TIMEOUT_MS", "20000"))
 CVC5_TIMEOUT_S = int(os.environ.get("PYVC_CVC5_TIMEOUT_S", "60"))
+FIRST_TIMEOUT_MS = int(os.environ.get("PYVC_FIRST_TIMEOUT_MS", "3000"))
 STATS = {"z3": 0, "cvc5": 0, "z3_time": 0.0, "cvc5_time": 0.0, "unknown": 0}
 
 
@@ -18,7 +19,8 @@ def check_with_fallback(solver: z3.Solver, negated_goal):
     t0 = time.time()
     solver.push()
     solver.add(negated_goal)
-    solver.set("timeout", OBL_TIMEOUT_MS)
+    # first a short z3 attempt, then cvc5 on the dumped query, then z3 with the full budget
+    solver.set("timeout", FIRST_TIMEOUT_MS)
     r = solver.check()
     model = solver.model() if r == z3.sat else None
     smt2 = None
@@ -27,22 +29,27 @@ def check_with_fallback(solver: z3.Solver, negated_goal):
             smt2 = solver.to_smt2()
         except Exception:  # pragma: no cover
             smt2 = None
+    solver_used = "z3"
+    if r == z3.unknown and smt2 is not None:
+        t1 = time.time()
+        res = run_cvc5(smt2, CVC5_TIMEOUT_S)
+        STATS["cvc5"] += 1
+        STATS["cvc5_time"] += time.time() - t1
+        if res in ("unsat", "sat"):
+            solver.pop()
+            solver.set("timeout", 5000)
+            return res, None, "cvc5", smt2
+        solver.set("timeout", OBL_TIMEOUT_MS)
+        r = solver.check()
+        model = solver.model() if r == z3.sat else None
     solver.pop()
     solver.set("timeout", 5000)
     STATS["z3"] += 1
     STATS["z3_time"] += time.time() - t0
     if r == z3.unsat:
-        return "unsat", None, "z3", None
+        return "unsat", None, solver_used, None
     if r == z3.sat:
-        return "sat", model, "z3", smt2
-    # unknown: try cvc5 on the dumped query
-    if smt2 is not None:
-        t1 = time.time()
-        res = run_cvc5(smt2)
-        STATS["cvc5"] += 1
-        STATS["cvc5_time"] += time.time() - t1
-        if res in ("unsat", "sat"):
-            return res, None, "cvc5", smt2
+        return "sat", model, solver_used, smt2
     STATS["unknown"] += 1
     return "unknown", None, "z3+cvc5", smt2
 
